@@ -589,8 +589,25 @@ func judgePack(rep *Report, c *PCase, arena, src string, allow []string, out pac
 	if !c.Ignore && !c.Deref && len(allow) == 0 && !hasOutsideLink && relOnly && uo.class != "ok" && escSig == "" {
 		fail("C02", "unpacking the slug that Pack produced from a tree of files, directories and in-tree relative links fails: "+uo.class, "")
 	}
-	if !c.Ignore && !c.Deref && len(allow) == 0 && !hasOutsideLink && relOnly && uo.class == "ok" {
+	if !c.Deref && len(allow) == 0 && !hasOutsideLink && relOnly && uo.class == "ok" {
 		rep.Count("c02:judged")
+		// with ignore processing the round trip is judged on the files and links whose own path the
+		// rules do not exclude (and that no pruned directory hides: finding F32): "the only omissions
+		// are entries excluded by ignore rules" (seed C02-d)
+		var keepOnly func(rel string, isDir bool) bool
+		if c.Ignore {
+			rulefile := ""
+			for _, n := range c.Nodes {
+				if n.Path == "p/src/.terraformignore" && n.Kind == "f" {
+					rulefile = n.Data
+				}
+			}
+			orules := oParse(rulefile)
+			keepOnly = func(rel string, isDir bool) bool {
+				return !isDir && !oExcluded(orules, rel) && packPruneSignature(orules, rel) == ""
+			}
+			rep.Count("c02:judged-with-ignore")
+		}
 		var diffs []string
 		want := map[string]string{}
 		filepath.Walk(srcReal, func(p string, info os.FileInfo, err error) error {
@@ -635,6 +652,9 @@ func judgePack(rep *Report, c *PCase, arena, src string, allow []string, out pac
 			return nil
 		})
 		for k, v := range want {
+			if keepOnly != nil && !keepOnly(k, strings.HasPrefix(v, "d ")) {
+				continue
+			}
 			if got[k] != v {
 				diffs = append(diffs, fmt.Sprintf("%s: source %q, unpacked %q", k, v, got[k]))
 			}
